@@ -56,7 +56,11 @@ func run(r *ev.Run) {
 	r.Assume("a queue row whose blob is at the destination but which is still present after the bounded progress (the handler logs and ignores a failed queue.Delete) is tolerated in the running incarnation, counted, and must be drained by one fault-free restart")
 	r.Assume("index destination: delivered = have:<ref> is \"<size>|indexed\" and meta:<ref> starts with \"<size>|\"; histories for the index family upload every dependency before its dependents, sequentially")
 
+	r.Assume("family 'attach-race': the handler is constructed (from configuration, or by server.NewSyncHandler) while another goroutine makes the first blob-hub look-up for the same, fresh source object (the source's first upload through blobserver.Receive, a blobserver.WaitForBlob on it, the constructor of a second handler); both parties meet at a spin rendez-vous just before their look-up and one leaves it a seeded number of nanoseconds late; half of the rounds use a source that is a comparable value type with a 1 MiB body (slow to hash as a map key); the schedule is never judged, only the uploads acknowledged after both calls returned are owed (the competing first upload is owed only if the handler enqueued it); whether the two call windows intersected is reported as evidence")
+
 	all := generate(r.Rand("scenarios"), r.Thorough())
+	// (own PRNG label and id prefix: the earlier scenarios keep their ids and seeds)
+	all = append(generateAttach(r.Rand("attach-race"), r.Thorough()), all...)
 	var scs []*scenario
 	for _, sc := range all {
 		if r.Only(sc.ID) {
@@ -66,6 +70,14 @@ func run(r *ev.Run) {
 	par := r.Pick(32, 48)
 	r.Extra("scenarios_planned", len(scs))
 	r.Extra("parallelism", par)
+
+	// family "attach-race": the constructor races run first, one after the other, while the
+	// process is quiet; the rest of each round (uploads, bounded progress, verdict) runs below
+	for _, sc := range scs {
+		if sc.Attach != "" {
+			r.Guard("attach-race constructor", sc, func() { sc.pre = prestart(sc) })
+		}
+	}
 
 	// family "server": one child process per configuration, alongside the scenarios
 	var wcfgs []string
@@ -105,6 +117,7 @@ func run(r *ev.Run) {
 	wg.Wait()
 
 	iterHist := map[string]int{}
+	attachSkew := map[string]int{}
 	for i, o := range outs {
 		sc := scs[i]
 		if o == nil {
@@ -131,6 +144,16 @@ func run(r *ev.Run) {
 		}
 		if o.Stall != nil {
 			r.Count("closed_wait_cycles_established", 1)
+		}
+		for _, a := range o.Attach {
+			r.Count("attach_race_rounds", 1)
+			if a.Met {
+				r.Count("attach_race_rendezvous_met", 1)
+				attachSkew[skewBucket(a.SkewNs)]++
+			}
+			if a.Overlap {
+				r.Count("attach_race_call_windows_overlapped", 1)
+			}
 		}
 		iterHist[fmt.Sprint(o.IdleWaitsMax)]++
 		if o.StaleUnexplained > 0 {
@@ -192,7 +215,14 @@ func run(r *ev.Run) {
 				r.Note("upload_route", sc.Via+":source")
 			}
 		}
-		delivered := len(o.Faults) > 0 || len(o.RestartAt) > 0 || len(o.Schedules) > 0 ||
+		attachMet := false
+		for _, a := range o.Attach {
+			if a.Met {
+				attachMet = true
+				r.Note("attach_race", a.Combo)
+			}
+		}
+		delivered := attachMet || len(o.Faults) > 0 || len(o.RestartAt) > 0 || len(o.Schedules) > 0 ||
 			sc.Family == "pool" || sc.Family == "size-boundary" || sc.Family == "startup-recovery" || sc.Family == "twin" ||
 			(sc.Family == "routed" && o.ThroughReplica > 0)
 		for _, f := range uniq(o.Faults) {
@@ -217,6 +247,9 @@ func run(r *ev.Run) {
 		if i%17 == 0 || len(o.Findings) > 0 {
 			r.Sample(map[string]any{"scenario": sc, "outcome": summary(o)})
 		}
+		if os.Getenv("C19_ATTACH_DEBUG") != "" && sc.Attach != "" {
+			fmt.Printf("ATTACHDEBUG %s late%d=%d findings=%d obs=%+v\n", sc.ID, sc.AttachLateParty, sc.AttachLateNs, len(o.Findings), o.Attach)
+		}
 		seen := map[string]bool{}
 		for _, f := range o.Findings {
 			if seen[f.Sig] {
@@ -230,6 +263,7 @@ func run(r *ev.Run) {
 		}
 	}
 	r.Extra("idle_waits_per_final_drive_histogram", iterHist)
+	r.Extra("attach_race_skew_leaving_rendezvous_histogram", attachSkew)
 
 	wwg.Wait()
 	for i, c := range wcfgs {
@@ -274,7 +308,8 @@ func run(r *ev.Run) {
 	r.Require("schedules", "reupload-during-dst.ReceiveBlob", "reupload-during-queue.Delete", "reupload-during-src.Fetch", "reupload-during-queue.Set",
 		"destination-held-until-workers-busy", "destination-silent-until-crash")
 	r.Require("family_judged", "fault", "restart", "restart-outage", "double-restart", "multi", "designed", "race",
-		"pool", "size-boundary", "backlog", "file-queue", "startup-recovery", "server", "twin", "full-sync-restart", "routed")
+		"pool", "size-boundary", "backlog", "file-queue", "startup-recovery", "server", "twin", "full-sync-restart", "routed", "attach-race")
+	r.Require("attach_race", attachCombos()...)
 	r.Require("boundary_size_pending_at_a_restart", "0", "max")
 	r.Require("full_sync_over_pending_rows", "full-sync-on-start", "blocking-full-sync-on-start", "validate-on-start")
 	r.Require("full_sync_over_pending_rows_fault", "dst-receive-error", "src-fetch-error")
@@ -317,6 +352,9 @@ func uniq(a []string) []string {
 func specKey(sc *scenario) string {
 	var sb strings.Builder
 	fmt.Fprintf(&sb, "h%v", sc.History)
+	if sc.Attach != "" {
+		fmt.Fprintf(&sb, "/attach:%s:%s:late%d=%dns", sc.AttachCtor, sc.SrcKey, sc.AttachLateParty, sc.AttachLateNs)
+	}
 	for _, is := range sc.Incs {
 		fmt.Fprintf(&sb, "/k%d", is.FreezeAt)
 		for _, f := range is.Faults {
